@@ -475,7 +475,7 @@ func TestMain(m *testing.M) {
 }
 
 // every update reports this much usage: it is priced with the tariff of the update's own first enquiry
-const usedPerUpdate = 7
+const usedPerUpdate = 600 // more than a grant of the peers buys: (nearly) every update needs a new reservation, so the account exchange is exercised at every step
 
 func withheld(a Action) bool {
 	return a.Kind == "drop" || (a.Kind == "late" && a.Ms > 5000) || a.Kind == "held"
